@@ -445,28 +445,8 @@ func (c *Ctx) ruleReadShape() {
 		if len(unm) == 0 {
 			c.R.Undecf("F6.gate", fname, "Unmarshal", c.Pos(fn.Pos()), "the decode call must be identifiable", "no Unmarshal call on the caller's Unmarshallable")
 		}
-		vP := paramByNamed(fn, M+"/efivar.Efivar")
 		for _, u := range unm {
-			good, detail := false, "no dominating test required.Equal(stored)"
-			for _, ce := range ir.DominatingConds(fn, u.Block()) {
-				call, ok := ce.Cond.(*ssa.Call)
-				if !ok || ir.CallID(call) != M+"/efi/attributes.Attributes.Equal" || !ce.Truth {
-					continue
-				}
-				recv, arg := call.Call.Args[0], call.Call.Args[1]
-				rs, as := c.Slicer().Slice(recv), c.Slicer().Slice(arg)
-				recvFromDef := vP != nil && rs[vP] && ir.HasField(rs, M+"/efivar.Efivar.Attributes")
-				argFromFile := len(ir.CallsIn(as, M+"/efivarfs/fswrapper.FSWrapper.ReadEfivarsWithGuid", M+"/efivarfs/fswrapper.FSWrapper.ReadEfivarsFile", M+"/efivarfs/fswrapper.FSWrapper.ParseEfivars")) > 0
-				recvFromFile := len(ir.CallsIn(rs, M+"/efivarfs/fswrapper.FSWrapper.ReadEfivarsWithGuid", M+"/efivarfs/fswrapper.FSWrapper.ReadEfivarsFile")) > 0
-				switch {
-				case recvFromDef && argFromFile && !recvFromFile:
-					good = true
-				case recvFromFile:
-					detail = "Equal is called with the stored mask as receiver: (stored & required) == stored accepts files lacking required attributes"
-				default:
-					detail = "the operands of Equal do not derive from (variable definition, stored attributes)"
-				}
-			}
+			good, detail := c.gateBefore(fn, u.Block(), nil, 0)
 			c.R.Check(good, "F6.gate", fname, "Unmarshal<-Equal", c.IPos(u), "decoding happens only behind required.Equal(stored) == true", detail)
 		}
 		// Equal itself is the subset test: every bit of a is set in b
@@ -796,7 +776,7 @@ func (d *deepView) sliceBaseObj(v ssa.Value, fr *frame, obj dval) (Affine, bool)
 // judgeFresh (F11): every buffer the function returns is constructed during the
 // call (in the function or in the library helpers it returns from).
 func (c *Ctx) judgeFresh(fn *ssa.Function, what, why string) {
-	dv := c.deepViewOf(fn, 4)
+	dv := c.deepViewOf(fn, 6)
 	fresh, det := true, ""
 	for _, r := range ir.Returns(fn) {
 		if len(r.Results) < 2 || r.Block() == fn.Recover {
@@ -861,6 +841,10 @@ func (d *deepView) freshBuffer(v ssa.Value, fr *frame, depth int) bool {
 			if a, ok := cell.v.(*ssa.Alloc); ok {
 				okAll, n := true, 0
 				d.eachStoreTo(a, cell.fr, func(st *ssa.Store, f *frame) {
+					// a named result written back to itself at a return
+					if lu, isLoad := st.Val.(*ssa.UnOp); isLoad && lu.Op == token.MUL && d.resolve(lu.X, f).same(cell) {
+						return
+					}
 					n++
 					if !d.freshBuffer(st.Val, f, depth+1) {
 						okAll = false
@@ -958,4 +942,200 @@ func truthTable(g [4]bool) string {
 		}
 	}
 	return "{" + strings.Join(p, " ") + "} allowed"
+}
+
+// retClassesFrom classifies the returns reachable from block start (entered
+// from predecessor pred, -1 if unknown) along each acyclic path: the error
+// operand is evaluated on the path itself — a phi takes the value of the edge
+// the path came through, a named result read back from its cell takes the
+// last value stored on the path. A return is "fail" only if it is on every
+// path that reaches it; otherwise the weakest class seen is reported.
+func retClassesFrom(fn *ssa.Function, start *ssa.BasicBlock, pred int) map[*ssa.Return]string {
+	out := map[*ssa.Return]string{}
+	if !hasErrorResult(fn) {
+		for _, r := range ir.Returns(fn) {
+			out[r] = "maybe"
+		}
+		return out
+	}
+	weaker := func(a, b string) string {
+		rank := map[string]int{"fail": 0, "maybe": 1, "success": 2}
+		if rank[b] > rank[a] {
+			return b
+		}
+		return a
+	}
+	paths := 0
+	overflow := false
+	var path []*ssa.BasicBlock
+	on := map[int]bool{}
+	var valueOn func(v ssa.Value, upto int, beforeInstr ssa.Instruction, r *ssa.Return, depth int) string
+	valueOn = func(v ssa.Value, upto int, beforeInstr ssa.Instruction, r *ssa.Return, depth int) string {
+		if depth > 8 {
+			return "maybe"
+		}
+		switch x := v.(type) {
+		case *ssa.Phi:
+			// the block of the phi on the path, at or before position upto
+			for i := upto; i >= 0; i-- {
+				if path[i] != x.Block() {
+					continue
+				}
+				pb := pred
+				if i > 0 {
+					pb = path[i-1].Index
+				}
+				for k, p := range x.Block().Preds {
+					if p.Index == pb {
+						return valueOn(x.Edges[k], i-1, nil, r, depth+1)
+					}
+				}
+				break
+			}
+		case *ssa.UnOp:
+			if a, ok := x.X.(*ssa.Alloc); ok && x.Op == token.MUL {
+				// last store to the cell on the path before the load
+				at := upto
+				for i := upto; i >= 0; i-- {
+					if path[i] == x.Block() {
+						at = i
+						break
+					}
+				}
+				for i := at; i >= 0; i-- {
+					ins := path[i].Instrs
+					end := len(ins)
+					if i == at {
+						for k, in := range ins {
+							if in == ssa.Instruction(x) {
+								end = k
+							}
+						}
+					}
+					for k := end - 1; k >= 0; k-- {
+						if st, ok := ins[k].(*ssa.Store); ok && st.Addr == ssa.Value(a) {
+							if lu, ok := st.Val.(*ssa.UnOp); ok && lu.Op == token.MUL && lu.X == ssa.Value(a) {
+								continue // err = err
+							}
+							return valueOn(st.Val, i, st, r, depth+1)
+						}
+					}
+				}
+			}
+		}
+		return errValClass(r, v, 0)
+	}
+	var dfs func(b *ssa.BasicBlock)
+	dfs = func(b *ssa.BasicBlock) {
+		if overflow {
+			return
+		}
+		path = append(path, b)
+		on[b.Index] = true
+		defer func() {
+			path = path[:len(path)-1]
+			delete(on, b.Index)
+		}()
+		if len(b.Instrs) > 0 {
+			if r, ok := b.Instrs[len(b.Instrs)-1].(*ssa.Return); ok {
+				paths++
+				if paths > 4000 {
+					overflow = true
+					return
+				}
+				cls := "maybe"
+				if len(r.Results) > 0 {
+					cls = valueOn(r.Results[len(r.Results)-1], len(path)-1, nil, r, 0)
+				}
+				if old, seen := out[r]; seen {
+					out[r] = weaker(old, cls)
+				} else {
+					out[r] = cls
+				}
+				return
+			}
+		}
+		for _, s := range b.Succs {
+			if !on[s.Index] {
+				dfs(s)
+			}
+		}
+	}
+	dfs(start)
+	if overflow {
+		for _, r := range ir.Returns(fn) {
+			out[r] = weaker(out[r], retClass(fn, r))
+			if out[r] == "" {
+				out[r] = retClass(fn, r)
+			}
+		}
+	}
+	return out
+}
+
+// gateBefore (F6): block blk of fn is only reached behind
+// required.Equal(stored) == true, tested in fn itself or established by a
+// library helper whose success fn observes on the way (the helper's accepting
+// returns are then all behind the test). via is the call through which a
+// helper was entered: the variable definition must be the one passed there.
+func (c *Ctx) gateBefore(fn *ssa.Function, blk *ssa.BasicBlock, via *ssa.Call, depth int) (bool, string) {
+	detail := "no dominating test required.Equal(stored)"
+	if depth > 3 {
+		return false, detail
+	}
+	vP := paramByNamed(fn, M+"/efivar.Efivar")
+	readers := []string{M + "/efivarfs/fswrapper.FSWrapper.ReadEfivarsWithGuid", M + "/efivarfs/fswrapper.FSWrapper.ReadEfivarsFile"}
+	e := c.accept()
+	for _, ce := range ir.DominatingConds(fn, blk) {
+		if call, ok := ce.Cond.(*ssa.Call); ok && ir.CallID(call) == M+"/efi/attributes.Attributes.Equal" && ce.Truth {
+			recv, arg := call.Call.Args[0], call.Call.Args[1]
+			rs, as := c.Slicer().Slice(recv), c.Slicer().Slice(arg)
+			recvFromDef := vP != nil && rs[vP] && ir.HasField(rs, M+"/efivar.Efivar.Attributes")
+			argFromFile := len(ir.CallsIn(as, append(readers, M+"/efivarfs/fswrapper.FSWrapper.ParseEfivars")...)) > 0
+			recvFromFile := len(ir.CallsIn(rs, readers...)) > 0
+			switch {
+			case recvFromDef && argFromFile && !recvFromFile:
+				return true, ""
+			case recvFromFile:
+				detail = "Equal is called with the stored mask as receiver: (stored & required) == stored accepts files lacking required attributes"
+			default:
+				detail = "the operands of Equal do not derive from (variable definition, stored attributes)"
+			}
+			continue
+		}
+		call, em := e.observe(fn, ce)
+		if call == nil {
+			continue
+		}
+		callee := ir.Callee(call)
+		if callee == nil || !c.P.InLib(callee) {
+			continue
+		}
+		// the helper is given this function's variable definition
+		if cp := paramByNamed(callee, M+"/efivar.Efivar"); cp == nil || vP == nil {
+			continue
+		} else {
+			passed := false
+			for k, p := range callee.Params {
+				if p == cp && k < len(ir.CallArgs(call)) && c.Slicer().Slice(ir.CallArgs(call)[k])[vP] {
+					passed = true
+				}
+			}
+			if !passed {
+				continue
+			}
+		}
+		acc := acceptingReturnsMode(callee, em)
+		all := len(acc) > 0
+		for _, r := range acc {
+			if ok, d := c.gateBefore(callee, r.Block(), call, depth+1); !ok {
+				all = false
+				detail = d
+			}
+		}
+		if all {
+			return true, ""
+		}
+	}
+	return false, detail
 }
